@@ -15,6 +15,7 @@ type Assertion struct {
 	Def  string // symbol defined by this assertion ("" for plain assumptions)
 	Syms []string
 	Real bool // depends on the A-REAL idealisation
+	FromObl string // the obligation whose goal this assumption restates
 }
 
 // Obligation is one proof goal.
@@ -78,6 +79,14 @@ type Ctx struct {
 	specErrors      []string
 	specHeap        map[string][]string
 	tier            string
+	constGlobals    map[string]*globalInfo
+	globalFactsDone map[string]bool
+	assumedTexts    map[string]bool
+	storeInfos      map[string]*storeInfo
+	allocOf         map[string]int
+	refEpoch        map[string]int
+	allocOrd        int
+	noAssume        map[string]bool // obligations (known findings) whose goals must not be assumed afterwards
 }
 
 func NewCtx(p *Program, unit string) *Ctx {
@@ -113,6 +122,13 @@ func (c *Ctx) resetPass() {
 	c.panicCount = map[string]int{}
 	c.preCount = map[string]int{}
 	c.grew = false
+	c.constGlobals = nil
+	c.globalFactsDone = nil
+	c.assumedTexts = nil
+	c.storeInfos = nil
+	c.allocOf = map[string]int{}
+	c.refEpoch = map[string]int{}
+	c.allocOrd = 0
 }
 
 func (c *Ctx) warn(format string, a ...interface{}) {
@@ -157,6 +173,13 @@ func (c *Ctx) assume(t *Term) {
 	if t == nil || t.S == "true" {
 		return
 	}
+	if c.assumedTexts == nil {
+		c.assumedTexts = map[string]bool{}
+	}
+	if c.assumedTexts[t.S] {
+		return
+	}
+	c.assumedTexts[t.S] = true
 	c.asserts = append(c.asserts, &Assertion{Seq: c.nextSeq(), Text: t.S})
 }
 
@@ -192,8 +215,8 @@ func (c *Ctx) oblige(o *Obligation) *Obligation {
 	}
 	c.obls = append(c.obls, o)
 	// once checked, the fact may be used afterwards
-	if !o.ExpectFail && o.Kind != "ensures" && o.Kind != "frame" && o.Kind != "lemma" {
-		c.asserts = append(c.asserts, &Assertion{Seq: c.nextSeq(), Text: tImp(o.Guard, o.Goal).S})
+	if !o.ExpectFail {
+		c.asserts = append(c.asserts, &Assertion{Seq: c.nextSeq(), Text: tImp(o.Guard, o.Goal).S, FromObl: o.Name})
 	}
 	return o
 }
@@ -251,13 +274,26 @@ func (c *Ctx) noteWrite(name string) {
 
 func (c *Ctx) heapSet(st *State, name string, t *Term) {
 	c.noteWrite(name)
-	st.heap[name] = c.define(name, t)
+	d := c.define(name, t)
+	if d.S != t.S {
+		if si := c.storeInfos[t.S]; si != nil {
+			c.storeInfos[d.S] = si
+		}
+	}
+	st.heap[name] = d
 }
 
 func (c *Ctx) heapHavoc(st *State, name string) *Term {
 	c.noteWrite(name)
 	v := c.fresh(name, c.heapSorts[name])
 	st.heap[name] = v
+	if name == "bigval" {
+		for gn, gi := range c.constGlobals {
+			if gi.bigVal != nil {
+				c.assumeGlobalFacts(st, gn)
+			}
+		}
+	}
 	return v
 }
 
@@ -270,6 +306,9 @@ func (c *Ctx) havocAll(st *State) {
 			old := c.heapGet(st, n)
 			nv := c.heapHavoc(st, n)
 			c.assume(tGe(nv, old))
+			continue
+		}
+		if c.constGlobals[n] != nil {
 			continue
 		}
 		c.heapHavoc(st, n)
@@ -498,7 +537,7 @@ func (c *Ctx) strLit(s string) *Term {
 	for _, o := range c.strLits {
 		c.asserts = append(c.asserts, &Assertion{Seq: 0, Text: fmt.Sprintf("(not (= %s %s))", name, o.S)})
 	}
-	c.asserts = append(c.asserts, &Assertion{Seq: 0, Text: fmt.Sprintf("(= (str.len %s) %d)", name, len(s))})
+	c.asserts = append(c.asserts, &Assertion{Seq: 0, Text: fmt.Sprintf("(= (gstr.len %s) %d)", name, len(s))})
 	c.strLits[s] = t
 	return t
 }
@@ -568,4 +607,72 @@ func (c *Ctx) typeConstraint(t types.Type, v *Term) *Term {
 		return mk(SBool, fmt.Sprintf("(>= %s 0)", v.S))
 	}
 	return tTrue
+}
+
+// ---------- select/store simplification with allocation-based distinctness ----------
+
+type storeInfo struct {
+	base, idx, val *Term
+}
+
+// sto builds (store arr idx v) and remembers its structure.
+func (c *Ctx) sto(arr, idx, v *Term) *Term {
+	t := tStore(arr, idx, v)
+	if c.storeInfos == nil {
+		c.storeInfos = map[string]*storeInfo{}
+	}
+	c.storeInfos[t.S] = &storeInfo{arr, idx, v}
+	return t
+}
+
+// sel builds (select arr idx), skipping stores at provably different references.
+func (c *Ctx) sel(arr, idx *Term) *Term {
+	for {
+		si := c.storeInfos[arr.S]
+		if si == nil {
+			break
+		}
+		if si.idx.S == idx.S {
+			return si.val
+		}
+		if c.distinctRefs(si.idx, idx) {
+			arr = si.base
+			continue
+		}
+		break
+	}
+	return tSelect(arr, idx)
+}
+
+func (c *Ctx) distinctRefs(i, j *Term) bool {
+	ai, okA := c.allocOf[i.S]
+	aj, okB := c.allocOf[j.S]
+	if okA && okB {
+		return ai != aj
+	}
+	if okA {
+		if j.S == "0" {
+			return true
+		}
+		ej, ok := c.refEpoch[j.S]
+		return ok && ej < ai
+	}
+	if okB {
+		if i.S == "0" {
+			return true
+		}
+		ei, ok := c.refEpoch[i.S]
+		return ok && ei < aj
+	}
+	return false
+}
+
+// bornNow records that reference term t exists at the current point (before any later allocation).
+func (c *Ctx) bornNow(t *Term) {
+	if c.refEpoch == nil {
+		c.refEpoch = map[string]int{}
+	}
+	if _, ok := c.refEpoch[t.S]; !ok {
+		c.refEpoch[t.S] = c.allocOrd
+	}
 }
